@@ -87,7 +87,10 @@ func same(a, b ser) (bool, string) {
 	if m.IsValid() && m.Type().NumIn() == 1 && m.Type().NumOut() == 1 && m.Type().Out(0).Kind() == reflect.Bool {
 		arg := reflect.ValueOf(b)
 		if m.Type().In(0) == arg.Type() {
-			if !m.Call([]reflect.Value{arg})[0].Bool() {
+			var eq bool
+			// Equal is an observer here, not an entry point of the property: if it cannot cope with
+			// the pair (e.g. nil MetaData on one side) the byte comparison above stands alone
+			if panicked, _ := eng.Panics(func() { eq = m.Call([]reflect.Value{arg})[0].Bool() }); !panicked && !eq {
 				return false, "Equal() reports a difference"
 			}
 		}
@@ -107,18 +110,48 @@ func firstDiff(a, b []byte) int {
 
 func cases(tier string, seed int64) []eng.Case {
 	var out []eng.Case
-	for i := range entries {
-		e := entries[i]
-		for _, kind := range []string{"roundtrip", "truncate", "corrupt", "failwriter"} {
+	// kind-major order: the cases are dealt round-robin to the shards, and the corrupt cases are by far the
+	// heaviest, so they must not all land on the same few shards
+	for _, kind := range []string{"corrupt", "roundtrip", "truncate", "failwriter", "history"} {
+		for i := range entries {
+			e := entries[i]
 			k := kind
-			out = append(out, eng.Case{ID: kind + "/" + e.Name, Sig: "C08|" + kind + "|" + e.Name, Desc: map[string]any{"type": e.Name, "check": kind, "variants": e.Variants},
-				Run: func(c *eng.Ctx) { runEntry(c, e, k, tier) }})
+			// the corruption sweep of the largest objects is split by variant over several cases (= shards);
+			// part 0 keeps the historical case id
+			parts := 1
+			if kind == "corrupt" {
+				parts = corruptParts[e.Name]
+			}
+			for part := 0; part < max(parts, 1); part++ {
+				id, pt := kind+"/"+e.Name, part
+				if part > 0 {
+					id = fmt.Sprintf("%s/part%d", id, part)
+				}
+				out = append(out, eng.Case{ID: id, Sig: "C08|" + kind + "|" + e.Name, Desc: map[string]any{"type": e.Name, "check": kind, "variants": e.Variants, "part": part},
+					Run: func(c *eng.Ctx) { runEntry(c, e, k, tier, pt, max(parts, 1)) }})
+			}
 		}
 	}
 	for i := range moEntries {
 		e := moEntries[i]
-		out = append(out, eng.Case{ID: "marshalonly/" + e.Name, Sig: "C08|marshalonly|" + e.Name, Desc: map[string]any{"type": e.Name, "check": "marshalonly", "variants": e.Variants},
-			Run: func(c *eng.Ctx) { runMarshalOnly(c, e) }})
+		out = append(out, eng.Case{ID: "marshalonly/" + e.id(), Sig: "C08|marshalonly|" + e.id(), Desc: map[string]any{"type": e.Name, "check": "marshalonly", "variants": e.Variants, "entry_points": e.mar() + "/" + e.unmar()},
+			Run: func(c *eng.Ctx) { runMarshalOnly(c, e, tier) }})
+	}
+	nb, nm := 10, 4
+	if tier == "thorough" {
+		nb, nm = 80, 16
+	}
+	for i := 0; i < nb; i++ {
+		idx := i
+		out = append(out, eng.Case{ID: fmt.Sprintf("bufprim/%d", i), Sig: "C08|bufprim", Desc: map[string]any{"check": "bufprim", "index": i}, Run: func(c *eng.Ctx) { runBufPrim(c, idx, tier) }})
+	}
+	for i := 0; i < nm; i++ {
+		idx := i
+		out = append(out, eng.Case{ID: fmt.Sprintf("bufmodel/%d", i), Sig: "C08|bufmodel", Desc: map[string]any{"check": "bufmodel", "index": i}, Run: func(c *eng.Ctx) { runBufferModel(c, idx) }})
+	}
+	for i := range bigEntries {
+		e := bigEntries[i]
+		out = append(out, eng.Case{ID: "bigvec/" + e.Name, Sig: "C08|bigvec|" + e.Name, Desc: map[string]any{"type": e.Name, "check": "bigvec"}, Run: func(c *eng.Ctx) { runBigVec(c, e, tier) }})
 	}
 	ns := 24
 	if tier == "thorough" {
@@ -134,11 +167,18 @@ func cases(tier string, seed int64) []eng.Case {
 func init() {
 	eng.Register(&eng.Monitor{
 		ID: "C08", Level: "fault_enumeration",
-		Rule:  "cases = (serializable type from the zoo of 30 types x check kind) plus mixed-type streams. roundtrip: every value variant x every writing entry point (bytes.Buffer, counting io.Writer, bufio.Writer 16/4096, buffer.Buffer, MarshalBinary) x every reading entry point (UnmarshalBinary, bytes.Reader, bufio.Reader 16/17/100/4096 with sentinel, buffer.Buffer with sentinel, 1-byte / half / random-chunk transports, plain and under a shared bufio.Reader) x every receiver history (fresh + each other variant of the type). truncate: every prefix length (exhaustive for encodings <= 4 KiB, sampled above). corrupt: every 8-byte window at every offset x 6 hostile values, and every byte x 3 values (exhaustive for encodings <= 1.5 KiB). failwriter: failure at every byte offset. distinct key = (type, variant, check, entry point / receiver / offset class); non-trivial = anything but the plain fresh-receiver bytes.Buffer round trip.",
+		Rule: "cases = (serializable type from the zoo of about 50 types x check kind) plus mixed-type streams, marshal-only / JSON objects, buffer-primitive programs and multi-chunk containers. " +
+			"roundtrip: every value variant (levels, degrees, flags, nil optional fields, zero values, objects obtained by CopyNew / Resize / *AtLevelFromPoly with capacity above length) x every writing entry point (bytes.Buffer, counting io.Writer, bufio.Writer 9/16/23-prefilled/4096, buffer.Buffer, MarshalBinary) x every reading entry point (UnmarshalBinary, bytes.Reader, bufio.Reader 16/17/100/4096 with sentinel, buffer.Buffer with sentinel, 1-byte / half / random-chunk transports, plain and under a shared bufio.Reader) x every receiver history (fresh + each other variant of the type); decoded objects must not alias the input bytes. " +
+			"history: one receiver is the target of a random sequence of valid reads, reads of streams that end early and reads of damaged encodings; after every valid read it equals the value written. " +
+			"truncate: every prefix length (exhaustive for encodings <= 4 KiB, sampled above). corrupt: every 8-byte window at every offset x 6 hostile values, and every byte x 3 values (exhaustive for encodings <= 1.5 KiB); for JSON encodings every leaf and container x 10 hostile values. failwriter: failure at every byte offset of an io.Writer, a bufio.Writer and a too-small buffer.Buffer. " +
+			"stream: 3-8 objects back-to-back on one shared reader, with fresh and with pooled (reused) receivers. bufprim: random programs over every Read*/Write* function of utils/buffer against a little-endian model, through misaligned small buffers, cut streams and failing writers. bigvec: vectors beyond the 2^16-element read chunk into fresh, smaller and larger receivers. " +
+			"distinct key = (type, variant, check, entry point / receiver / offset class); non-trivial = anything but the plain fresh-receiver bytes.Buffer round trip.",
 		Cases: cases, MemLimitMB: 6144,
 		Assumptions: []string{
 			"for plain io.Reader receivers the library documents that it wraps the reader in a private bufio.Reader, so only the value and the returned byte count are required there, not the position of the underlying stream",
 			"a corrupted encoding may legitimately decode to a different valid object: then it must re-serialise consistently; it must never panic, die or decode from a truncated stream without error",
+			"a receiver that went through a failed or damaged read is one of the 'prior states of the receiving object': the next valid encoding read into it must still reproduce the value written",
+			"bufio.Writer / buffer.Buffer smaller than one 8-byte word are outside the domain (the library refuses them with an error); write-side buffers start at 8-9 bytes",
 		},
 	})
 }
@@ -148,7 +188,10 @@ func try(c *eng.Ctx, sig string, f func() error) (err error, ok bool) {
 	return
 }
 
-func runEntry(c *eng.Ctx, e entry, kind string, tier string) {
+// corruptParts: number of cases the corruption sweep of a type is split into (by variant index).
+var corruptParts = map[string]int{"bootstrapping.EvaluationKeys": 8, "rlwe.MemEvaluationKeySet": 4, "rlwe.Ciphertext": 3, "rlwe.Plaintext": 2, "rlwe.Parameters": 3, "polynomial.PowerBasis": 2}
+
+func runEntry(c *eng.Ctx, e entry, kind string, tier string, part, parts int) {
 	z := newZoo()
 	rnd := c.Rand()
 	vals := make([]ser, e.Variants)
@@ -174,12 +217,16 @@ func runEntry(c *eng.Ctx, e entry, kind string, tier string) {
 		}
 	case "corrupt":
 		for v := range vals {
-			corrupt(c, e, v, vals[v], datas[v], tier)
+			if v%parts == part {
+				corrupt(c, e, v, vals[v], datas[v], tier)
+			}
 		}
 	case "failwriter":
 		for v := range vals {
 			failwriter(c, e, v, vals[v], datas[v], tier)
 		}
+	case "history":
+		history(c, e, vals, datas, tier)
 	}
 }
 
@@ -232,6 +279,29 @@ func roundtrip(c *eng.Ctx, e entry, v int, vals []ser, datas [][]byte) {
 			n, err := val.WriteTo(w)
 			if err == nil {
 				err = w.Flush()
+			}
+			return n, b.Bytes(), err
+		}},
+		{"bufio.Writer9", func() (int64, []byte, error) {
+			var b bytes.Buffer
+			w := bufio.NewWriterSize(&b, 9)
+			n, err := val.WriteTo(w)
+			if err == nil {
+				err = w.Flush()
+			}
+			return n, b.Bytes(), err
+		}},
+		{"bufio.Writer23(pre-filled)", func() (int64, []byte, error) {
+			// a writer that already buffers 3 bytes of an earlier message: every word lands misaligned
+			var b bytes.Buffer
+			w := bufio.NewWriterSize(&b, 23)
+			w.Write(sentinel[:3])
+			n, err := val.WriteTo(w)
+			if err == nil {
+				err = w.Flush()
+			}
+			if b.Len() >= 3 && bytes.Equal(b.Bytes()[:3], sentinel[:3]) {
+				return n, b.Bytes()[3:], err
 			}
 			return n, b.Bytes(), err
 		}},
@@ -351,7 +421,13 @@ func roundtrip(c *eng.Ctx, e entry, v int, vals []ser, datas [][]byte) {
 				return fmt.Sprintf("variant %d receiver %s: n=%d want %d", v, hist, n, len(data))
 			})
 			eq, why := same(rcv, val)
-			c.Check(eq, sg(sig+"|"+histClass(h), "value-differs"), func() string {
+			vsig := sg(sig+"|"+histClass(h), "value-differs")
+			if e.Leak != nil && e.Leak(v, h) != "" {
+				// a triaged receiver-state defect that exactly this (value, previous value) pair exposes
+				vsig = "C08|" + T + ".ReadFrom|" + e.Leak(v, h) + "|value-differs"
+				c.Count("optional_field_absent_into_receiver_holding_it", 1)
+			}
+			c.Check(eq, vsig, func() string {
 				return fmt.Sprintf("variant %d receiver %s: %s", v, hist, why)
 			})
 			if rc.shared {
@@ -360,6 +436,41 @@ func roundtrip(c *eng.Ctx, e entry, v int, vals []ser, datas [][]byte) {
 				})
 			}
 		}
+	}
+	// ---- 3. independence of the decoded object from the transport's memory, and of the encoding from the object
+	// (encoding.BinaryUnmarshaler: "UnmarshalBinary must copy the data if it wishes to retain the data after returning")
+	for _, ep := range []string{"UnmarshalBinary", "buffer.Buffer"} {
+		cp := append([]byte{}, data...)
+		rcv := fresh(val)
+		err, ok := try(c, "C08|"+T+"."+ep+"|retains-input-slice", func() error {
+			if ep == "UnmarshalBinary" {
+				return rcv.UnmarshalBinary(cp)
+			}
+			_, err := rcv.ReadFrom(buffer.NewBuffer(cp))
+			return err
+		})
+		if !ok || err != nil {
+			continue // judged above
+		}
+		for i := range cp {
+			cp[i] ^= 0xFF
+		}
+		eq, why := same(rcv, val)
+		c.Distinct(fmt.Sprintf("%s/%d/retain/%s", T, v, ep), true)
+		if cls == "" {
+			c.Check(eq, "C08|"+T+"."+ep+"|retains-input-slice", func() string {
+				return fmt.Sprintf("variant %d: the decoded object changed when the input bytes were overwritten afterwards: %s", v, why)
+			})
+		}
+	}
+	if d1, err := val.MarshalBinary(); err == nil {
+		for i := range d1 {
+			d1[i] ^= 0xFF
+		}
+		d2, err := val.MarshalBinary()
+		c.Check(err == nil && bytes.Equal(d2, data), "C08|"+T+".MarshalBinary|result-aliases-object", func() string {
+			return fmt.Sprintf("variant %d: overwriting the slice returned by MarshalBinary changed the object (next encoding differs at %d)", v, firstDiff(d2, data))
+		})
 	}
 }
 
@@ -536,13 +647,18 @@ func failwriter(c *eng.Ctx, e entry, v int, val ser, data []byte, tier string) {
 	}
 	c.Distinct(fmt.Sprintf("%s/%d/failwriter", T, v), true)
 	for _, o := range offs {
-		for _, ep := range []string{"io.Writer", "bufio.Writer64"} {
+		for _, ep := range []string{"io.Writer", "bufio.Writer64", "buffer.Buffer(too-small)"} {
 			fw := &failingWriter{limit: o}
 			sig := "C08|" + T + ".WriteTo|failing-writer|" + ep
 			var n int64
 			err, ok := try(c, sig, func() (err error) {
 				if ep == "io.Writer" {
 					n, err = val.WriteTo(fw)
+					return
+				}
+				if ep == "buffer.Buffer(too-small)" {
+					// the fixed-size buffer the library recommends for writing into a []byte, o bytes large
+					n, err = val.WriteTo(buffer.NewBufferSize(o))
 					return
 				}
 				bw := bufio.NewWriterSize(fw, 64)
@@ -569,8 +685,13 @@ func runStream(c *eng.Ctx, idx int) {
 	k := 3 + rnd.N(6)
 	var objs []ser
 	var names []string
+	var ents []entry
+	var vars []int
 	for i := 0; i < k; i++ {
 		e := entries[rnd.N(len(entries))]
+		if i > 0 && rnd.N(3) == 0 {
+			e = ents[rnd.N(len(ents))] // the same type again: its pooled receiver is then reused (below)
+		}
 		v := rnd.N(e.Variants)
 		// value classes with a triaged defect of their own (judged, with their own signature, by the per-type
 		// cases) are kept out of the composition check, which is about stream position and framing
@@ -582,6 +703,7 @@ func runStream(c *eng.Ctx, idx int) {
 		}
 		objs = append(objs, e.Make(z, rnd.Sub("obj", i), v))
 		names = append(names, fmt.Sprintf("%s#%d", e.Name, v))
+		ents, vars = append(ents, e), append(vars, v)
 	}
 	c.Sample(map[string]any{"check": "stream", "objects": names})
 	wsize := eng.Pick(rnd, 16, 17, 100, 4096)
@@ -609,10 +731,21 @@ func runStream(c *eng.Ctx, idx int) {
 		return fmt.Sprintf("objects=%v writer size=%d: stream has %d bytes, concatenated encodings %d, announced %d, first diff %d", names, wsize, under.Len(), len(concat), total, firstDiff(under.Bytes(), concat))
 	})
 	stream := concat
-	for _, rsize := range []int{16, 17, 100, 4096, -1, -2} {
+	for _, rsize := range []int{16, 17, 100, 4096, -1, -2, -3, -4} {
 		var rd io.Reader
 		label := fmt.Sprintf("bufio.Reader%d", rsize)
+		// pooled: one receiver per type serves every object of that type on the stream (a connection handler
+		// that decodes message after message into the same variable)
+		pooled := rsize <= -3
+		pool := map[string]ser{}
+		held := map[string]int{}
 		switch rsize {
+		case -3:
+			rd = bufio.NewReaderSize(bytes.NewReader(stream), 19)
+			label = "bufio.Reader19(pooled-receivers)"
+		case -4:
+			rd = buffer.NewBuffer(append([]byte{}, stream...))
+			label = "buffer.Buffer(pooled-receivers)"
 		case -1:
 			rd = buffer.NewBuffer(append([]byte{}, stream...))
 			label = "buffer.Buffer"
@@ -626,6 +759,14 @@ func runStream(c *eng.Ctx, idx int) {
 		okAll := true
 		for i, o := range objs {
 			rcv := fresh(o)
+			if pooled {
+				e, v := ents[i], vars[i]
+				if p, has := pool[e.Name]; has && (e.Leak == nil || e.Leak(v, held[e.Name]) == "") {
+					rcv = p
+					c.Count("stream_receivers_reused", 1)
+				}
+				pool[e.Name], held[e.Name] = rcv, v
+			}
 			var n int64
 			err, ok := try(c, "C08|stream|ReadFrom|"+label, func() (err error) { n, err = rcv.ReadFrom(rd); return })
 			if !ok {
